@@ -1289,7 +1289,15 @@ fn main() {
             variants_every_boundary: true,
         };
         let zone_i = case["zone"].as_u64().unwrap_or(0) as usize;
-        if case["schema_state"].is_string() {
+        if case["lifecycle"].as_bool() == Some(true) {
+            let cfg = vupd::lifecycle::Cfg { axfr: case["axfr"].as_u64().unwrap_or(1) as u8, allow_update: case["allow_update"].as_bool().unwrap_or(true), dnssec: case["dnssec"].as_bool().unwrap_or(false) };
+            ctx.with_local(|l| {
+                l.eval();
+                for f in vupd::lifecycle::run(&tmp_root().join("lifecycle-replay"), &cfg, || Some(dnssecfam::zone_signer()), &w.rt) {
+                    l.violation(&f.key, &f.what, || case.clone());
+                }
+            });
+        } else if case["schema_state"].is_string() {
             ctx.with_local(|l| run_schema_states(&mut w, &zones[0].1, l));
         } else if case["dnssec_family"].as_bool() == Some(true) {
             let zi = if case["dnssec_zone"].as_str() == Some(zones[KINDS_ZONE].0) { KINDS_ZONE } else { 0 };
@@ -1410,7 +1418,13 @@ fn main() {
          so it sees no NSEC / RRSIG RRsets where the live zone has them): every kind of vupd::kinds incl. CNAME re-target, CNAME at a new \
          name, host -> CNAME and CNAME -> host in one message, as single event x {NSEC, NSEC3} and as ordered pair (quick: 8 CNAME-related \
          kinds x NSEC; thorough: all pairs x {NSEC, NSEC3}) on the kinds zone: the whole unsigned content after a restart at every message \
-         boundary equals the live content (differences keyed by the RR types that differ).",
+         boundary equals the live content (differences keyed by the RR types that differ). (g) CONFIG-DRIVEN LIFECYCLE (sixth seed round; \
+         vupd::lifecycle, shared with C13): the zone built ONLY through SqliteZoneHandler::try_from_config (zone file, journal file and TSIG key \
+         file in a temp dir; DNSSEC: key loaded and zone signed after every start like the binary) for every combination of AXFR policy {Deny, \
+         AllowAll, AllowSigned} x allow_update {false, true} x DNSSEC {off, on}, started THREE times (zone file, then twice from the journal), \
+         at every start the probes plain query / unsigned, bad-MAC, signed AXFR / unsigned, bad-MAC, signed UPDATE and two update kinds: the \
+         outcome class of every probe (rcode, zone changed, zone data returned) equals the one at the first start, the zone after a restart \
+         is the zone before the stop, no zone data against the AXFR policy, no update effect without a valid TSIG or with allow_update = false.",
     );
     ctx.assume("SQLite's atomic commit: a stop leaves exactly the rows a second connection can see at that moment (a prefix of the row sequence)");
     ctx.assume("the crash-free run of the same implementation is the reference for boundary states and continuations (C12 judges them against RFC 2136)");
@@ -1443,6 +1457,25 @@ fn main() {
             }
         },
     );
+    // sixth seed round: config-driven lifecycle (zone built only through try_from_config, three
+    // starts, every knob combination)
+    {
+        let cfgs = vupd::lifecycle::Cfg::all(true);
+        ctx.set("lifecycle_configurations", json!(cfgs.iter().map(|c| c.name()).collect::<Vec<_>>()));
+        ctx.par_run_init(cfgs.len() as u64, 1, |wi| Worker::new(wi as usize), |i, l, w| {
+            let cfg = cfgs[i as usize];
+            l.eval();
+            let dir = tmp_root().join(format!("lifecycle-{i}"));
+            let fs = vupd::lifecycle::run(&dir, &cfg, || Some(dnssecfam::zone_signer()), &w.rt);
+            if fs.is_empty() {
+                l.outcome("lifecycle:three-starts-agree");
+                l.nontrivial(vupd::digest(&("lifecycle", cfg.name())));
+            }
+            for f in fs {
+                l.violation(&f.key, &f.what, || json!({"lifecycle": true, "configuration": cfg.name(), "axfr": cfg.axfr, "allow_update": cfg.allow_update, "dnssec": cfg.dnssec}));
+            }
+        });
+    }
     // audit round: journal files as a stop during their creation leaves them
     {
         let mut w = Worker::new(9999);
@@ -1485,7 +1518,7 @@ fn main() {
     }
     let _ = std::fs::remove_dir_all(tmp_root());
 
-    for class in ["dnssec:boundary-content-recovered", "dnssec:nsec3:boundary-content-recovered", "dnssec:continuation-step-agrees", "journal-variant-recovers-alike:rowids-with-gaps", "journal-variant-recovers-alike:records-reencoded-uncompressed-upper-case", "stop:inside-initial-dump", "stop:at-message-boundary", "stop:inside-message-row-group", "continuation-step-agrees", "write-failure:stop-recovered", "write-failure:continuation-step-agrees"] {
+    for class in ["lifecycle:three-starts-agree", "dnssec:boundary-content-recovered", "dnssec:nsec3:boundary-content-recovered", "dnssec:continuation-step-agrees", "journal-variant-recovers-alike:rowids-with-gaps", "journal-variant-recovers-alike:records-reencoded-uncompressed-upper-case", "stop:inside-initial-dump", "stop:at-message-boundary", "stop:inside-message-row-group", "continuation-step-agrees", "write-failure:stop-recovered", "write-failure:continuation-step-agrees"] {
         if ctx.outcome_count(class) == 0 {
             ctx.machinery_failure(&format!("vacuous run: outcome class {class} never exercised"));
         }
